@@ -22,6 +22,7 @@ def store (t : Tier) (k : SetKind) (c : SetCmd) : Prog ε (HRes Unit) := do
   let r ← Prog.req t (storeReq k c)
   match r with
   | .io => pure (.error .panic)
+  | .wfail => pure (.error .io)      -- the flush of the request already failed: an ordinary error
   | .status s =>
     match decodeError s with
     | some e => pure (.error (.app e))
@@ -37,6 +38,7 @@ def getLocal (r : Resp) : Except HErr (Nat × Nat × Bytes) :=
     | some e => .error (.app e)
     | none => .error .io       -- a non-error status without a value body: the stream is unusable
   | .io => .error .io
+  | .wfail => .error .io
   | .ok => .error .io
   | .silent => .error .io
 
@@ -66,6 +68,7 @@ def simple (t : Tier) (r : Req) : Prog ε (HRes Unit) := do
   let resp ← Prog.req t r
   match resp with
   | .io => pure (.error .io)
+  | .wfail => pure (.error .io)
   | .status s =>
     match decodeError s with
     | some e => pure (.error (.app e))
